@@ -162,16 +162,18 @@ def mkimage := mkimageWith mkimageArms
 
 def isAsciiControl (c : Nat) : Bool := c < 32 || c == 127
 
-/-- `u8::from_str_radix(s,10)` -/
-def parseU8 (s : List Nat) : Option Nat :=
-  let ds := match s with
-    | 43 :: r => r
-    | _ => s
+/-- the digits of `u8::from_str_radix(s,10)`: non-empty, decimal, value at most 255 -/
+def digitsU8 (ds : List Nat) : Option Nat :=
   if ds.isEmpty then none
   else if ds.all (fun c => decide (48 ≤ c) && decide (c ≤ 57)) then
-    let v := ds.foldl (fun a c => a * 10 + (c - 48)) 0
-    if v ≤ 255 then some v else none
+    if ds.foldl (fun a c => a * 10 + (c - 48)) 0 ≤ 255 then some (ds.foldl (fun a c => a * 10 + (c - 48)) 0) else none
   else none
+
+/-- `u8::from_str_radix(s,10)`: an optional leading `+`, then digits -/
+def parseU8 (s : List Nat) : Option Nat :=
+  match s with
+  | 43 :: r => digitsU8 r
+  | _ => digitsU8 s
 
 def upper (c : Nat) : Nat := if 97 ≤ c ∧ c ≤ 122 then c - 32 else c
 
@@ -331,19 +333,27 @@ def mkpascal (vol : Option (List Nat)) (boot : Bool) (img : Img) (k : Kind) : Ou
       else .ok { typ := img.typ, kind := k, cap := img.cap, fs := .pascal, blockSize := 512, total := img.cap / 512,
                  free := img.cap / 512 - 6 }
 
+/-- the optional `match *kind` guard of `mkcpm` -/
+def cpmGuardRejects (g : Option (List Kind)) (k : Kind) : Bool :=
+  match g with
+  | some ks => !ks.any (·.same k)
+  | none => false
+
+/-- the label `mkcpm` passes to `format`: the volume argument for CP/M 3, nothing otherwise (mkdsk.rs:189-197) -/
+def cpmLabel (vers : Nat) (vol : Option (List Nat)) : List Nat :=
+  if vers = 3 then vol.getD [] else []
+
 /-- `mkcpm` (mkdsk.rs:181) with `cpm::Disk::format` (cpm/mod.rs:285) -/
 def mkcpmWith (kindGuard : Option (List Kind)) (vol : Option (List Nat)) (boot : Bool) (k : Kind) (img : Img) (vers : Nat) : Outcome Plan :=
   if boot then .err .bootFlag
   else if vers ≠ 2 ∧ vers ≠ 3 then .panic .unreachable
-  else if (match kindGuard with | some ks => !ks.any (·.same k) | none => false) then .err .kindUnsupported
+  else if cpmGuardRejects kindGuard k then .err .kindUnsupported
   else match dpbArms.find? (fun a => a.1.same k) with
     | none => .panic .dpbCreate                                                              -- dpb.rs:244
     | some (_, d) =>
       if !d.verify then .err .dpbInvalid                                                     -- cpm/mod.rs:149
       else
-        let name := match vers, vol with
-          | 3, some s => s
-          | _, _ => []
+        let name := cpmLabel vers vol
         if vers ≥ 3 ∧ name.length > 0 ∧ !cpmNameValid name then .err .volumeName             -- cpm/mod.rs:286
         else if !img.supports .cpm then .err .blockAddressing
         else .ok { typ := img.typ, kind := k, cap := img.cap, fs := .cpm, blockSize := 128 * 2 ^ d.get 1,
@@ -383,16 +393,20 @@ structure Result where
 
 def lower (c : Nat) : Nat := if 65 ≤ c ∧ c ≤ 90 then c + 32 else c
 
-/-- `mkdsk` from parsing `--kind`/`--type` to the extension check (mkdsk.rs:254-275): the refined kind and the image -/
-def pre (os : Os) (kind : KindArg) (typ : TypeArg) (wrap : Option WrapArg) (ext : List Nat) : Outcome (Kind × Img) :=
+/-- `mkdsk` from parsing `--kind`/`--type` to the image (mkdsk.rs:254-265): the refined kind and the image -/
+def preImg (os : Os) (kind : KindArg) (typ : TypeArg) (wrap : Option WrapArg) : Outcome (Kind × Img) :=
   match kindFromStr kind, typeFromStr typ with
   | none, _ => .panic .kindArg                                                               -- :254 unwrap
   | _, none => .panic .typeArg                                                               -- :255 unwrap
   | some k0, some t =>
     let k := refine os k0                                                                    -- :258
-    (mkimage t k wrap).bind fun img =>
-      if !(fileExts img.typ).contains (ext.map lower) then .err .extension                   -- :267
-      else .ok (k, img)
+    (mkimage t k wrap).bind fun img => .ok (k, img)
+
+/-- … and the extension check (mkdsk.rs:267-275) -/
+def pre (os : Os) (kind : KindArg) (typ : TypeArg) (wrap : Option WrapArg) (ext : List Nat) : Outcome (Kind × Img) :=
+  (preImg os kind typ wrap).bind fun x =>
+    if !(fileExts x.2.typ).contains (ext.map lower) then .err .extension                     -- :267
+    else .ok x
 
 /-- the dispatch on the OS name (mkdsk.rs:276-285) -/
 def perOs (os : Os) (k : Kind) (img : Img) (boot : Bool) (vol : Option (List Nat)) : Outcome Plan :=
